@@ -6,9 +6,11 @@ import glob, json, os
 R = os.path.dirname(os.path.dirname(os.path.abspath(__file__)))
 props = [json.loads(l)["id"] for l in open(os.path.join(R, "properties.jsonl"))]
 entries = {}
+claimed = set(json.load(open(os.path.join(R, "manifest.d", "claimed.json"))))  # checks verified green on the unchanged tree
 for f in sorted(glob.glob(os.path.join(R, "manifest.d", "C*.json"))):
     e = json.load(open(f))
-    entries[e["property_id"]] = e
+    if e["property_id"] in claimed:
+        entries[e["property_id"]] = e
 na_file = os.path.join(R, "manifest.d", "not_applicable.json")
 na_reasons = json.load(open(na_file)) if os.path.exists(na_file) else {}
 checks, na = [], []
